@@ -6,6 +6,8 @@ Support definitions for Go code translated AS CODE by cmd/extract (loops*.go).  
   of range, slice bounds out of range, negative shift count).  `forIn` / `whileFuel` are the loops over such
   statement lists; they stop at the first `done` / `panic`.  `Flow.result` is the outcome of the whole
   function body: `none` = the Go function panics.
+* `forInB` / `whileFuelB` are these loops for bodies that contain `break`: the body yields its state together with
+  a flag, `true` = a `break` was executed.
 * `forUp` / `forDown` are the index lists of three-clause loops, `trailingZeros64` is `math/bits.TrailingZeros`
   on a 64-bit `uint`.
 -/
@@ -49,6 +51,19 @@ fuel is used up, so the bound is never what ends the loop. -/
 def whileFuel {ρ σ : Type} (cond : σ → Bool) (body : σ → Flow ρ σ) : Nat → σ → Flow ρ σ
   | 0, s => .run s
   | fuel + 1, s => if cond s then (body s).bind (whileFuel cond body fuel) else .run s
+
+/-- `forIn` for a body that may `break`: the body yields `(true, s)` after a `break` (the loop ends with state `s`)
+and `(false, s)` at its normal end (the loop goes on) -/
+def forInB {α ρ σ : Type} : List α → σ → (σ → α → Flow ρ (Bool × σ)) → Flow ρ σ
+  | [], s, _ => .run s
+  | a :: l, s, f => (f s a).bind (fun r => if r.1 then .run r.2 else forInB l r.2 f)
+
+/-- `whileFuel` for a body that may `break` (as `forInB`).  Emitted under the same conditions as `whileFuel`: every
+iteration that ends normally, without `break`, has removed at least one element of the slice whose length is the fuel. -/
+def whileFuelB {ρ σ : Type} (cond : σ → Bool) (body : σ → Flow ρ (Bool × σ)) : Nat → σ → Flow ρ σ
+  | 0, s => .run s
+  | fuel + 1, s =>
+    if cond s then (body s).bind (fun r => if r.1 then .run r.2 else whileFuelB cond body fuel r.2) else .run s
 
 /-- an `int` index `i` is within `0 … n-1` -/
 def inRangeS (i : BitVec 64) (n : Nat) : Bool := !i.msb && decide (i.toNat < n)
